@@ -283,9 +283,9 @@ func (x *rtCtx) decorate(snap string, hidx, k int, policy string, base ProjOpts,
 		o.RawKeys = []string{"allocations"} // first access unmarshals the persisted form into the raw holder
 	}
 	for round := 1; round <= 2; round++ {
-		applied := Decorate(b, seed*131+int64(hidx)*17+int64(k), round)
+		applied, panics := Decorate(b, seed*131+int64(hidx)*17+int64(k), round)
 		rec := tr.M{"h": hidx, "k": k, "op": fmt.Sprintf("decor%d", round), "origin": "decor", "policy": policy, "applied": applied,
-			"oppanic": false, "operr": false}
+			"oppanic": false, "operr": false, "api_panics": panics}
 		lp, cp, _ := x.roundTrip(b, dd, o, rec)
 		if cp != "" && round == 2 {
 			x.keepSnapshot(cp, fmt.Sprintf("h%d-k%d-decor", hidx, k), tr.M{"h": hidx, "k": k, "origin": "decor", "policy": policy,
